@@ -169,11 +169,15 @@ func genVPN(seed uint64, tier, mode string) *Script {
 				rts = append(rts, fmt.Sprint(g.rng(1, 4)))
 			}
 			rdv := g.n(2)
-			add(Op{Kind: "vpnann", Peer: p, Prefix: fmt.Sprintf("10.%d.%d.0/24", 10+p, rdv*4+g.n(4)), Arg: strings.Join(rts, ","), N: rdv})
+			if g.p(25) {
+				// the remote PE uses the RD of one of the local VRFs ("one RD per VPN on every PE")
+				rdv = 10 + g.n(4)
+			}
+			add(Op{Kind: "vpnann", Peer: p, Prefix: fmt.Sprintf("10.%d.%d.0/24", 10+p, vpnPfxBase(rdv)+g.n(4)), Arg: strings.Join(rts, ","), N: rdv})
 		case r < 38:
 			p := g.n(2)
-			rdv := g.n(2)
-			add(Op{Kind: "vpnwd", Peer: p, Prefix: fmt.Sprintf("10.%d.%d.0/24", 10+p, rdv*4+g.n(4)), N: rdv})
+			rdv := pick(g, []int{0, 1, 0, 1, 10, 11, 12, 13})
+			add(Op{Kind: "vpnwd", Peer: p, Prefix: fmt.Sprintf("10.%d.%d.0/24", 10+p, vpnPfxBase(rdv)+g.n(4)), N: rdv})
 		case r < 50: // CE announces
 			ci := 2 + g.n(nCE)
 			add(Op{Kind: "ceann", Peer: ci, Prefix: fmt.Sprintf("10.%d.%d.0/24", 20+ci, g.n(3))})
@@ -214,6 +218,15 @@ func genVPN(seed uint64, tier, mode string) *Script {
 	sc.Phases = []Phase{{Ops: ops, Settle: 3, Check: true}}
 	sc.Final = pick(g, []string{"stop", "stopbgp"})
 	return sc
+}
+
+// vpnPfxBase keeps the plain prefixes of different RDs apart (several importable VPN routes with
+// one plain prefix would compete at a CE, which the set-algebra oracle does not model).
+func vpnPfxBase(rdv int) int {
+	if rdv >= 10 {
+		return 8 + (rdv-10)*4
+	}
+	return rdv * 4
 }
 
 func vpnSettle() {
@@ -314,6 +327,10 @@ func vpnOp(w *simWorld, actor int, op *Op) {
 		st.serial++
 		rts := parseInts(op.Arg)
 		rd := fmt.Sprintf("65000:%d", 100*(op.Peer+1)+op.N)
+		if op.N >= 10 {
+			rd = fmt.Sprintf("65000:%d", op.N-9) // the RD of local VRF red/blue/green/grey
+			w.probe("vpn_announce_with_vrf_rd")
+		}
 		shared := op.Arg2 == "shared"
 		lp := 100
 		if shared {
@@ -345,6 +362,9 @@ func vpnOp(w *simWorld, actor int, op *Op) {
 			return
 		}
 		rd := fmt.Sprintf("65000:%d", 100*(op.Peer+1)+op.N)
+		if op.N >= 10 {
+			rd = fmt.Sprintf("65000:%d", op.N-9)
+		}
 		shared := op.Arg2 == "shared"
 		if shared {
 			rd = "65000:900"
